@@ -14,7 +14,9 @@ unchanged otherwise, the step is unchanged; SQUEEZE-CMP - the predicate that
 drops bins in squeeze(), evaluated over dimension lengths, is true exactly
 for length one; value and error are squeezed alike; DS-PURE - slicing and
 squeezing write neither into the original nor into aliases of its fields.
-EDGE-KIND - the choice between the cell slice and the edge slice of the bins
+INDEX-KEPT - __getitem__ does not re-bind its index to slices rebuilt from
+slice.indices(). The slice table distinguishes Python ints from numpy
+integers (isinstance(bound, int) misses the latter). EDGE-KIND - the choice between the cell slice and the edge slice of the bins
 is a comparison of len(<current bins>) with the current shape, not a kind
 remembered on the object.
 Not decided: content equality of the resulting arrays (numpy semantics).
@@ -28,6 +30,7 @@ def check(ctx):
     ctx.run(dataset.check_squeeze)
     ctx.run(dataset.check_ds_pure)
     ctx.run(dataset.check_edge_kind)
+    ctx.run(dataset.check_index_kept)
 
 
 def variants(program):
